@@ -30,7 +30,12 @@ pub fn num(v: &Value) -> f64 {
     }
     if let Some(o) = v.as_object() {
         if let (Some(n), Some(d)) = (o.get("n"), o.get("d")) {
-            return n.as_i64().unwrap() as f64 / d.as_i64().unwrap() as f64;
+            let q = n.as_i64().unwrap() as f64 / d.as_i64().unwrap() as f64;
+            // optional binary scale: n/d * 2^e2 (exact for the magnitudes used)
+            return match o.get("e2").and_then(|e| e.as_i64()) {
+                Some(e) => q * 2f64.powi((e / 2) as i32) * 2f64.powi((e - e / 2) as i32),
+                None => q,
+            };
         }
     }
     if let Some(a) = v.as_array() {
